@@ -53,7 +53,9 @@ class Clock(i_lib.Clock):
 
     def wait(self):
         if self._keep_going:
-            self._event.wait()
+            # Bounded: stop() may come between the test above and the wait,
+            # after the clock thread's last tick; nobody would wake us then.
+            self._event.wait(1.0)
         return self._keep_going
 
     def pause_for(self, delay):
